@@ -89,4 +89,20 @@ class CustomType(RecurrentProcessor):
         return 0
 
 
+from ml_pipeline_engine.types import NodeBase, RecurrentProtocol  # noqa: E402
+
+
+class Untyped(NodeBase, RecurrentProtocol):
+    """a node deriving the bare NodeBase protocol: node_type is None (the viewer warns and skips its type)"""
+    name = "f1"
+    verbose_name = "Untyped"
+
+    def process(self, **kwargs: Any) -> Any:
+        return 0
+
+    def next_iteration(self, data: Any) -> Any:
+        from ml_pipeline_engine.types import Recurrent
+        return Recurrent(data=data)
+
+
 CLASSES = [F0, F1, F2, F3, F4]
